@@ -57,7 +57,9 @@ def embed(area: bytes, container: str, posclass, seed: int):
         post = 0 if posclass == "end" else rng.choice([1, 300, 9000])
         return fill(pre) + area + fill(post), pre, None
     S = 0x3000
-    img, info = refpe.build_pe(arch=rng.choice(["x86", "x64"]), n_sections=2, section_size=S)
+    # (the image's stamps are fixed so that the extraction result can be checked for them: a protected configuration inside a
+    # XorEncoded stage still reports the PE artifacts of the decoded image)
+    img, info = refpe.build_pe(arch=rng.choice(["x86", "x64"]), n_sections=2, section_size=S, compile_stamp=0x5F112233, export_stamp=0x5FA0B201)
     img = bytearray(img)
     if posclass == "end":
         off = len(img) - len(area)
@@ -82,6 +84,8 @@ def one(args):
         g = c.guardrails
         res["from_bytes"] = "ok"
         res["config_block"] = L(c.config_block)
+        i_ = lambda v: None if v is None else int(v)  # noqa: E731
+        res["stamps"] = (i_(c.pe_compile_stamp), i_(c.pe_export_stamp), c.architecture in ("x86", "x64"))
         res["has_guardrails"] = g is not None
         if g is not None:
             res["key"] = L(g.payload_xor_key or b"")
@@ -165,7 +169,8 @@ CHECK_DEADLOCK FALSE
             okk = res["key"] and refguard.period(B(res["key"])) == refguard.period(B(row["key"])) and B(res["key"])[: refguard.period(B(res["key"]))] == B(row["key"])[: refguard.period(B(row["key"]))]
             oko = (res["cfg_off"], res["guard_off"]) == (res["offset"], res["offset"] + 6144)
             oks = res["checksum"] == row["stored"] and [(a, b, c) for a, b, c, _ in res["options"]] == exp_opts
-            for name, ok in (("config", okc), ("key", okk), ("offsets", oko), ("guard_settings", oks)):
+            okp = container != "xorenc" or tuple(res.get("stamps", ())) == (0x5F112233, 0x5FA0B201, True)
+            for name, ok in (("config", okc), ("key", okk), ("offsets", oko), ("guard_settings", oks), ("pe_artifacts_of_the_decoded_image", okp)):
                 if not ok:
                     ctx.violation(f"recovered guardrails data differ from the protected input ({name})", {**m, "failed": name}, brief)
         else:
